@@ -13,7 +13,10 @@ import time
 VERIF = os.path.dirname(os.path.dirname(os.path.abspath(__file__)))
 REPO = os.environ.get("VERIF_REPO", "/repo")
 CACHE = os.path.join(VERIF, ".cache")
-WORK = os.path.join(CACHE, "work")
+ALTNAME = None if REPO == "/repo" else re.sub(r"[^A-Za-z0-9_.-]", "_", REPO.strip("/"))
+WORK = os.path.join(CACHE, "work") if ALTNAME is None else os.path.join(CACHE, "alt", ALTNAME, "work")
+# evidence and replay files of a run against another tree never overwrite the committed ones
+EVIDENCE = os.path.join(VERIF, "evidence") if ALTNAME is None else os.path.join(CACHE, "alt", ALTNAME, "evidence")
 COQ = os.path.join(VERIF, "coq")
 OCAML = os.path.join(VERIF, "ocaml")
 HARNESS = os.path.join(VERIF, "harness")
@@ -47,6 +50,8 @@ def run(cmd, cwd=None, env=None, timeout=None, quiet=True):
 
 def build_harness(prop=None, release=False):
     """cargo build of the harness (binary of one property, or all) against /repo's current working tree, hooks on."""
+    if REPO != "/repo":
+        return build_harness_alt(prop, release)
     with Lock("cargo"):
         regenerate_registration()
         lock = os.path.join(HARNESS, "Cargo.lock")
@@ -64,6 +69,38 @@ def build_harness(prop=None, release=False):
             shutil.copy(os.path.join(REPO, "Cargo.lock"), lock)
             rc, out = run(cmd, cwd=HARNESS, env=env, timeout=1500)
         exe = os.path.join(TARGET, "release" if release else "debug", prop or "stam-verif-harness")
+        return rc, out, exe
+
+
+def build_harness_alt(prop, release=False):
+    """VERIF_REPO=<tree>: build the harness against another copy of the repository (a scratch
+    worktree with a seeded change) without touching /repo: a copy of harness/ with the path
+    dependency redirected and its own target directory under .cache/alt/<name>/ (remove it when done)."""
+    name = re.sub(r"[^A-Za-z0-9_.-]", "_", REPO.strip("/"))
+    base = os.path.join(CACHE, "alt", name)
+    hdir = os.path.join(base, "harness")
+    with Lock("cargo-alt-" + name):
+        regenerate_registration()
+        os.makedirs(base, exist_ok=True)
+        run(["rsync", "-a", "--delete", "--exclude", "Cargo.lock", "--exclude", ".cargo", HARNESS + "/", hdir + "/"])
+        toml = open(os.path.join(HARNESS, "Cargo.toml")).read().replace('path = "/repo"', 'path = "%s"' % REPO)
+        write_if_changed(os.path.join(hdir, "Cargo.toml"), toml)
+        lock = os.path.join(hdir, "Cargo.lock")
+        if not os.path.exists(lock):
+            for cand in (os.path.join(REPO, "Cargo.lock"), os.path.join(HARNESS, "Cargo.lock"), "/repo/Cargo.lock"):
+                if os.path.exists(cand):
+                    shutil.copy(cand, lock)
+                    break
+        env = dict(ENV)
+        env["CARGO_TARGET_DIR"] = os.path.join(base, "target")
+        env["RUSTFLAGS"] = (env.get("RUSTFLAGS", "") + " --cfg " + GUARD + " -Awarnings").strip()
+        cmd = ["cargo", "build", "--offline", "--quiet"]
+        if prop:
+            cmd += ["--bin", prop]
+        if release:
+            cmd.append("--release")
+        rc, out = run(cmd, cwd=hdir, env=env, timeout=1500)
+        exe = os.path.join(base, "target", "release" if release else "debug", prop or "stam-verif-harness")
         return rc, out, exe
 
 
